@@ -612,7 +612,15 @@ fn run_fixed(rng: &mut Rng, fam: &str, id: &str, prof: &Profile) {
         // is still Pending, it is stuck: logged as `an 98 0` (a violation of C01's consequence).
         let mut woken = true;
         let mut last_item = false;
-        while !finished && steps < 600 {
+        // the model finishes within 3 * (scripted steps) + 1 rounds under every schedule of this
+        // executor (FcProps/C01liveAny.lean); beyond a generous multiple of that the run is stuck
+        let total: usize = CTX.with(|c| c.borrow().scripts.iter().map(|s| s.len()).sum());
+        let budget = 4 * total + 8;
+        while !finished {
+            if steps >= budget {
+                log("an 98 0".into());
+                break;
+            }
             steps += 1;
             if woken || last_item {
                 cur_w = next_w;
@@ -638,7 +646,11 @@ fn run_fixed(rng: &mut Rng, fam: &str, id: &str, prof: &Profile) {
                             }
                         }
                     }
-                    (0..n).filter(|k| last[*k] == Some(true) && !c.scripts[*k].is_empty()).collect()
+                    // a child that has already invoked its current waker is not woken again: if the
+                    // combinator lost that wake-up, nobody rescues it
+                    (0..n)
+                        .filter(|k| last[*k] == Some(true) && !c.scripts[*k].is_empty() && !c.owed.get(*k).copied().unwrap_or(false))
+                        .collect()
                 });
                 if waiting.is_empty() {
                     log("an 98 0".into());
@@ -727,12 +739,16 @@ fn run_group(rng: &mut Rng, stream: bool, id: &str, prof: &Profile) {
     let mut cur_w = 1usize;
     let mut polls = 0usize;
     let mut poisoned = false;
-    let nops = if prof.is("drain") { 400 } else { 6 + rng.below(if prof.is("big") || prof.is("refill") { 60 } else { 22 }) };
+    let nops = if prof.is("drain") { 4000 } else { 6 + rng.below(if prof.is("big") || prof.is("refill") { 60 } else { 22 }) };
     let mut fill_left = if prof.is("refill") || prof.is("drain") { 1 + rng.below(4) } else { 0 };
     let mut last_o = String::new();
     let mut g_woken = true;
     let mut refills = 0usize;
     let mut drain_target: Option<usize> = None;
+    // rounds (polls and prods) of the current draining episode, and its budget: a generous multiple of
+    // the model's bound 3 * (scripted steps of the members) + 1 (FcProps/C01liveG.lean)
+    let mut drain_rounds = 0usize;
+    let mut drain_budget = usize::MAX;
     let ck = if stream { ChildKind::Stream } else { ChildKind::Fut };
     let panic_child: Option<usize> =
         if !prof.is("drain") && rng.chance(if prof.is("panic") { 50 } else { 5 }) { Some(rng.below(4)) } else { None };
@@ -826,6 +842,7 @@ fn run_group(rng: &mut Rng, stream: bool, id: &str, prof: &Profile) {
             if fill_left > 0 {
                 fill_left -= 1;
                 g_woken = true;
+                drain_budget = usize::MAX;
                 0
             } else if last_o == "N" {
                 refills += 1;
@@ -835,7 +852,22 @@ fn run_group(rng: &mut Rng, stream: bool, id: &str, prof: &Profile) {
                 last_o.clear();
                 fill_left = rng.below(3);
                 g_woken = true;
+                drain_budget = usize::MAX;
                 0
+            } else if {
+                if drain_budget == usize::MAX {
+                    let left: usize = CTX.with(|c| {
+                        let c = c.borrow();
+                        (0..key_of.len()).filter(|k| key_of[*k].is_some()).map(|k| c.scripts[k].len()).sum()
+                    });
+                    drain_budget = 4 * left + 8;
+                    drain_rounds = 0;
+                }
+                drain_rounds += 1;
+                drain_rounds > drain_budget
+            } {
+                log("an 98 0".into());
+                break;
             } else if g_woken || last_o.starts_with('S') || last_o.is_empty() {
                 30
             } else {
@@ -852,7 +884,11 @@ fn run_group(rng: &mut Rng, stream: bool, id: &str, prof: &Profile) {
                             }
                         }
                     }
-                    (0..key_of.len()).filter(|k| key_of[*k].is_some() && last[*k] == Some(true) && !c.scripts[*k].is_empty()).collect()
+                    (0..key_of.len())
+                        .filter(|k| {
+                            key_of[*k].is_some() && last[*k] == Some(true) && !c.scripts[*k].is_empty() && !c.owed.get(*k).copied().unwrap_or(false)
+                        })
+                        .collect()
                 });
                 if waiting.is_empty() {
                     log("an 98 0".into());
